@@ -53,6 +53,7 @@ class Client:
         self.exit_lock: Any = None  # held while an adopted thread lives (join waits for it)
         self.atomic_depth = 0  # > 0: inside an observer / model section (untraced)
         self.untraced = False  # adopted while its starter ran harness code: never pre-empted
+        self.released = False  # the run is over: a background thread of the library goes on for real
         self.started = False
         self.thread: threading.Thread | None = None
         self.priority = 0
@@ -277,6 +278,8 @@ class Scheduler:
         return w
 
     def yield_point(self, cur: Client, frame: Any = None, boundary: bool = False) -> None:
+        if cur.released:
+            return
         self.global_step += 1
         if self.mode == "writes" and frame is not None and not isinstance(frame, tuple):
             # the line we are ABOUT to run is frame.f_lineno; the previous line of this client has
@@ -395,6 +398,7 @@ class Scheduler:
                 # every caller thread is done; what is left are background threads of the library
                 # that wait for work: the run is over
                 self.events.update(f"{self.global_step}:end;".encode())
+                self._release_background_threads(cur)
                 self.done.release()
                 return
             nxt = self._wake_by_time()
@@ -444,6 +448,17 @@ class Scheduler:
         sys.settrace(None)
         c.suspended = 1
         c.in_op = False
+
+    def _release_background_threads(self, cur: Client) -> None:
+        """The run is over: threads of the library that still wait (pool workers waiting for work)
+        leave the simulation and block for real, so that library calls made by the harness after
+        the simulation (a pool that outlives the parse) still find their workers."""
+        simthreads.ACTIVE = None
+        for c in self.clients:
+            if c is not cur and c.adopted and not c.finished and not c.released:
+                c.released = True
+                self.probe("background_threads_released_at_end_of_run")
+                c.sem.release()
 
     def _choose_other(self, others: list[Client]) -> Client:
         step = self.global_step
@@ -515,9 +530,14 @@ class Scheduler:
                     # every caller thread is done and this background thread of the library waits
                     # for work that will never come: the run is over
                     self.events.update(f"{self.global_step}:end;".encode())
+                    self._release_background_threads(cur)
+                    cur.released = True
+                    simthreads.unregister_current()
+                    sys.settrace(None)
                     self.done.release()
-                    cur.sem.acquire()  # parked; the process is about to exit
-                    raise SimAbort("the run is over")
+                    # from here on this is an ordinary thread of the process (the harness may use
+                    # the library again after the simulation, e.g. a pool that outlives the parse)
+                    return lock._real.acquire(True, -1 if timeout is None else max(0.0, timeout))
                 else:
                     w = self._wake_by_time()
                     kind = "tmo"
@@ -531,6 +551,12 @@ class Scheduler:
             if nxt is not cur:
                 self._switch(cur, nxt, kind, where, mid_op=cur.in_op)
                 cur.sem.acquire()
+            if cur.released:
+                # the run ended while this background thread of the library waited: it goes on as
+                # an ordinary thread of the process
+                simthreads.unregister_current()
+                sys.settrace(None)
+                return lock._real.acquire(True, -1 if timeout is None else max(0.0, timeout))
             if cur.timed_out:
                 cur.timed_out = False
                 cur.blocked_on = None
